@@ -30,7 +30,8 @@ Definition run_show_proto (c : bytes * bool * list op) : string :=
   let '(m, transmitting, ops) := c in
   let s := play false (eqb_bytes m HEAD) ops pinit (if transmitting then xinit_transmitting else xinit_waiting) in
   String.concat "," (map show_xfire (request_fired s)) ++ "|" ++ show_hex (m_delivered (x_in s)) ++ "|"
-  ++ String.concat "," (map show_reason (m_closed (x_in s))) ++ "|s" ++ show_nat (x_stops s).
+  ++ String.concat "," (map show_reason (m_closed (x_in s))) ++ "|s" ++ show_nat (x_stops s)
+  ++ "|a" ++ show_bool (m_asked (x_in s)).
 
 Inductive anycase :=
 | CSession (c : bytes * list bytes * list bytes * dtime * bool)
